@@ -69,6 +69,15 @@ _MONTH_FULL = list(_MONTH_ABBREV_TO_FULL.values())
 _LOWERCASE_FULL = list(m.lower() for m in _MONTH_FULL)
 
 
+def _unknown_month_message(v) -> str:
+    """The metadata message for an out-of-range month number (`str` refuses huge ints)."""
+    try:
+        shown = str(v)
+    except ValueError:
+        shown = "<integer with too many digits>"
+    return f"month-field unchanged - unknown month {shown}"
+
+
 def _digits_to_int(v):
     """The int written by a digit-string, or the unchanged value if `int` cannot read it.
 
@@ -106,7 +115,7 @@ class MonthLongStringMiddleware(_MonthInterpolator):
             if v < 1 or v > 12:
                 return (
                     month_field.value,
-                    f"month-field unchanged - unknown month {v}",
+                    _unknown_month_message(v),
                 )  # Nothing we can do here
             return _MONTH_FULL[v - 1], "transformed int-month to str-month"
         elif isinstance(v, str):
@@ -147,7 +156,7 @@ class MonthAbbreviationMiddleware(_MonthInterpolator):
         if isinstance(v, int):
             if v < 1 or v > 12:
                 # Nothing we can do here
-                return month_field.value, f"month-field unchanged - unknown month {v}"
+                return month_field.value, _unknown_month_message(v)
             return _MONTH_ABBREV[v - 1], "transformed int-month to abbreviated month"
         elif isinstance(v, str):
             v_lower = v.lower()
